@@ -46,11 +46,20 @@ Dev == /\ l <= Len(Rec) /\ Rec[l].ev = "dev"
 
 (* C11 for the mandated commands: the same message from the same state on a response buffer of capacity `cap';
    `len' is the length of the response on a growable buffer (that run is the next line and is judged by Msg) *)
+(* whatever was cut short, the error/event queue keeps its order: what is left of the old queue (some oldest
+   items read or everything cleared), then at most the operation-complete events of the units that ran, then
+   the -225 of this failure -- an item that could not be sent is never put back behind younger ones *)
+RECURSIVE PushAll(_, _, _)
+PushAll(q, cap, es) == IF es = <<>> THEN q ELSE PushAll(PushPost(q, cap, Head(es)), cap, Tail(es))
+CapQueueOk(pre, post, cap) ==
+    \E k \in 0..Len(pre) : \E j \in 0..3 :
+        post = PushAll(SubSeq(pre, k + 1, Len(pre)), cap, [i \in 1..j |-> Err(-800, 0)] \o <<Err(-225, 0)>>)
+
 Cap == /\ l <= Len(Rec) /\ Rec[l].ev = "cap"
        /\ LET ev == Rec[l]
               ok == /\ ev.within                                                    \* never writes beyond the capacity
                     /\ IF ev.cap >= ev.len THEN ev.code = 0 /\ ev.same               \* fits: identical bytes and effects
-                       ELSE ev.code = -225                                           \* does not fit: -225 Out of memory
+                       ELSE ev.code = -225 /\ CapQueueOk(st.queue, ev.qpost, env.cap)  \* does not fit: -225 Out of memory
           IN IF ok THEN TRUE ELSE PrintT(<<"BAD", l, ToJson([allowed |-> {}])>>)
        /\ UNCHANGED <<env, st>> /\ l' = l + 1
 
